@@ -81,31 +81,51 @@ def parse_traces(text: str) -> Dict[str, Trace]:
 
 # ---------------------------------------------------------------- model side
 
-def run_model(cases: List[Case], fuel: int = 3000, sem: bool = False) -> Tuple[Dict[str, Trace], Dict[str, str]]:
-    """Returns (traces, sem results).  Grammars are emitted once each, in case order."""
-    lines = [f"FUEL {fuel}"]
-    last = None
-    for c in cases:
-        if c.g is not last:
-            lines.extend(c.g.proto_lines())
-            last = c.g
-        cfg = c.cfg
-        lines.append(f"C {c.cid} {cfg.root} {cfg.a} {cfg.m} {cfg.eol} {cfg.lazy} {cfg.unwind} "
-                     f"{c.init[0]} {c.init[1]} {c.init[2]} {hexs(c.data)}")
-        if sem:
-            lines.append(f"SEM {c.cid} {cfg.root} {cfg.eol} {hexs(c.data)}")
+def _model_chunk(args):
+    lines = args
     p = subprocess.run([common.driver_path()], input="\n".join(lines) + "\n", capture_output=True, text=True)
     if p.returncode != 0:
         raise RuntimeError("model driver failed: " + p.stderr[:2000])
-    bad = [l for l in p.stdout.splitlines() if l.startswith('BAD')]
-    if bad:
-        raise RuntimeError("model driver rejected input: " + bad[0])
-    sems = {}
-    for l in p.stdout.splitlines():
-        if l.startswith('SEM '):
-            parts = l.split(' ', 2)
-            sems[parts[1]] = parts[2]
-    return parse_traces(p.stdout), sems
+    return p.stdout
+
+
+def run_model(cases: List[Case], fuel: int = 3000, sem: bool = False, jobs: int = 12) -> Tuple[Dict[str, Trace], Dict[str, str]]:
+    """Returns (traces, sem results).  Cases are split by grammar over several driver processes."""
+    chunks: List[List[str]] = []
+    cur: List[str] = []
+    last = None
+    ncur = 0
+    target = max(2000, len(cases) // (jobs * 3) + 1)
+    for c in cases:
+        if c.g is not last:
+            if ncur >= target:
+                chunks.append(cur)
+                cur, ncur = [], 0
+            if not cur:
+                cur.append(f"FUEL {fuel}")
+            cur.extend(c.g.proto_lines())
+            last = c.g
+        cfg = c.cfg
+        cur.append(f"C {c.cid} {cfg.root} {cfg.a} {cfg.m} {cfg.eol} {cfg.lazy} {cfg.unwind} "
+                   f"{c.init[0]} {c.init[1]} {c.init[2]} {hexs(c.data)}")
+        if sem:
+            cur.append(f"SEM {c.cid} {cfg.root} {cfg.eol} {hexs(c.data)}")
+        ncur += 1
+    if cur:
+        chunks.append(cur)
+    with ThreadPoolExecutor(max_workers=jobs) as ex:
+        outs = list(ex.map(_model_chunk, chunks))
+    traces: Dict[str, Trace] = {}
+    sems: Dict[str, str] = {}
+    for out in outs:
+        for l in out.splitlines():
+            if l.startswith('BAD'):
+                raise RuntimeError("model driver rejected input: " + l)
+            if l.startswith('SEM '):
+                parts = l.split(' ', 2)
+                sems[parts[1]] = parts[2]
+        traces.update(parse_traces(out))
+    return traces, sems
 
 
 # ---------------------------------------------------------------- implementation side
